@@ -1170,6 +1170,40 @@ def expand_own_properties(repo) -> list[str]:
     return log
 
 
+def split_name_tuple_assignments(repo) -> int:
+    """`a, b = (x, y)` with plain names (or constants) on the right that are none of the targets is `a = x; b = y`: the form an
+    expanded helper that returns several values leaves behind - written out so that each name has one plain definition."""
+    n = 0
+    for m in repo.pkg_modules():
+        for parent in ast.walk(m.tree):
+            for fld in ("body", "orelse", "finalbody"):
+                blk = getattr(parent, fld, None)
+                if not isinstance(blk, list):
+                    continue
+                i = 0
+                while i < len(blk):
+                    st = blk[i]
+                    if isinstance(st, ast.Assign) and len(st.targets) == 1 and isinstance(st.targets[0], ast.Tuple) and isinstance(st.value, ast.Tuple) \
+                            and len(st.targets[0].elts) == len(st.value.elts) and all(isinstance(t, ast.Name) for t in st.targets[0].elts) \
+                            and all(isinstance(v, (ast.Name, ast.Constant)) for v in st.value.elts):
+                        tnames = {t.id for t in st.targets[0].elts}
+                        if not any(isinstance(v, ast.Name) and v.id in tnames for v in st.value.elts):
+                            new = []
+                            for t, v in zip(st.targets[0].elts, st.value.elts):
+                                a = ast.Assign(targets=[t], value=v)
+                                ast.copy_location(a, st)
+                                a._parent = parent
+                                t._parent = a
+                                v._parent = a
+                                new.append(a)
+                            blk[i:i + 1] = new
+                            n += 1
+                            i += len(new)
+                            continue
+                    i += 1
+    return n
+
+
 def expand_helpers(repo) -> dict:
     """Rewrite the trees of `repo` (an index built WITHOUT this pass) in place; returns statistics."""
     from .types import Typer
@@ -1178,6 +1212,9 @@ def expand_helpers(repo) -> dict:
     inl = Inliner(repo, Typer(repo, None))
     stats = inl.run()
     inl.log += prop_log
+    n_split = split_name_tuple_assignments(repo)
+    if n_split:
+        inl.log.append(f"{n_split} tuple assignment(s) of plain names written as single assignments")
     inl.log += expand_constants(repo)
     stats["log"] = inl.log
     stats["into"] = {k: sorted(v) for k, v in inl.into.items()}
